@@ -97,9 +97,9 @@ fn c14_strata(tier: Tier) -> Vec<Stratum> {
             if tier == Tier::Quick {
                 if s.name == "trace-operands" {
                 } else if traced {
-                    s.max_size -= 1;
+                    s.max_size = s.max_size.saturating_sub(1);
                 } else {
-                    s.max_size -= 2;
+                    s.max_size = s.max_size.saturating_sub(2);
                 }
             }
             s
@@ -153,6 +153,8 @@ pub fn run(tier: Tier, replay: Option<String>) -> i32 {
             let srcs: Vec<String> = (start..end).map(|i| function_source(&format!("f{}", i - start), st, &bodies[i])).collect();
             // programs[t][k]
             let mut programs: Vec<Vec<Option<Program<Name>>>> = vec![];
+            // the same builds before optimisation (hook H1), to tell which differences the optimiser introduces
+            let mut pre: Vec<Vec<Option<Program<Name>>>> = vec![];
             for (tname, t) in &trs {
                 let t = *t;
                 let built = guarded(|| {
@@ -161,9 +163,10 @@ pub fn run(tier: Tier, replay: Option<String>) -> i32 {
                     for f in &fns {
                         let p = guarded(|| {
                             let mut g = proj.generator(t);
-                            let p = g.generate_raw(&f.body, &f.arguments, crate::driver::MODULE_NAME);
                             let _ = aiken_lang::verif_hooks::drain_pre_optimisation();
-                            p
+                            let p = g.generate_raw(&f.body, &f.arguments, crate::driver::MODULE_NAME);
+                            let s0 = aiken_lang::verif_hooks::drain_pre_optimisation().pop();
+                            (p, s0)
                         });
                         out.push(p);
                     }
@@ -172,9 +175,13 @@ pub fn run(tier: Tier, replay: Option<String>) -> i32 {
                 match built {
                     Ok(Ok(v)) if v.len() == end - start => {
                         let mut row = vec![];
+                        let mut row0 = vec![];
                         for (k, p) in v.into_iter().enumerate() {
                             match p {
-                                Ok(p) => row.push(Some(p)),
+                                Ok((p, s0)) => {
+                                    row.push(Some(p));
+                                    row0.push(s0);
+                                }
                                 Err(pn) => {
                                     l.violations.push(Violation {
                                         signature: format!("panic|compiler|{}|{tname}", vcore::evid::panic_site_file(&pn)),
@@ -182,10 +189,12 @@ pub fn run(tier: Tier, replay: Option<String>) -> i32 {
                                         case: json!({"engine":"c14","source":srcs[k],"tracing":tname}),
                                     });
                                     row.push(None);
+                                    row0.push(None);
                                 }
                             }
                         }
                         programs.push(row);
+                        pre.push(row0);
                     }
                     Ok(Ok(_)) => {
                         l.machinery.push("batch returned a different number of functions".into());
@@ -233,7 +242,18 @@ pub fn run(tier: Tier, replay: Option<String>) -> i32 {
                         l.evaluations += 1;
                         l.compared += 1;
                         if got != want {
-                            let class = if trace_operand_can_abort(body) { "trace operand aborts" } else { "other" };
+                            // a difference that one build's optimiser run introduced (its own
+                            // pre-optimisation program behaves like the other build) carries the
+                            // signature C02 gives that defect: one identity in C01, C02 and C14
+                            let by_optimiser = [0usize, ti].iter().find_map(|b| match (&pre[*b][k], &programs[*b][k]) {
+                                (Some(s0), Some(fin)) => crate::c02::attribute_to_optimiser(&src, body, s0, fin, data),
+                                _ => None,
+                            });
+                            let class = match &by_optimiser {
+                                Some(sig) => format!("introduced-by-the-optimiser|{sig}"),
+                                None if trace_operand_can_abort(body) => "trace operand aborts".to_string(),
+                                None => "other".to_string(),
+                            };
                             let kind = if want == "fail" { "succeeds-only-when-traced-differently" } else if got == "fail" { "fails-only-when-traced-differently" } else { "value-differs" };
                             let signature = format!("verdict-depends-on-tracing|{kind}|{class}");
                             let n = l.per_signature.entry(signature.clone()).or_default();
